@@ -58,7 +58,7 @@ fn plan(prop: &str, tier: &str) -> Plan {
     }
     match prop {
         "C06" => {
-            p.random_cases = if quick { 480 } else { 40_000 };
+            p.random_cases = if quick { 1280 } else { 40_000 };
             p.long_cases = 0;
             p.big_cases = 0;
             p.enum_empty = vec![];
